@@ -51,9 +51,15 @@ func findSigRoles(p *Prog) *sigRoles {
 				continue
 			}
 			for f := range sr.Finders {
-				if len(callsTo(fn, f.String())) > 0 && fn.Signature.Params().Len() == f.Signature.Params().Len() {
-					sr.Finders[fn] = true
-					changed = true
+				// a thin wrapper: it hands its own element parameter to the finder (the name may arrive as two strings
+				// or as one value)
+				for _, ci := range callsTo(fn, f.String()) {
+					if args := ci.Common().Args; len(args) > 0 {
+						if prm, ok := args[0].(*ssa.Parameter); ok && prm.Parent() == fn && !sr.Finders[fn] {
+							sr.Finders[fn] = true
+							changed = true
+						}
+					}
 				}
 			}
 		}
@@ -414,6 +420,11 @@ func elementSource(p *Prog, fc *FuncCtx, v ssa.Value, sr *sigRoles, depth int) (
 	if depth > 6 {
 		return "too deep", false
 	}
+	if ld, isLoad := v.(*ssa.UnOp); isLoad {
+		if _, idx, ok := callComponent(ld); ok && idx < 0 {
+			return elementSourceOfComponent(p, fc, ld, sr, depth)
+		}
+	}
 	switch x := v.(type) {
 	case *ssa.Parameter:
 		// all call sites must supply an allowed element
@@ -475,6 +486,8 @@ func elementSource(p *Prog, fc *FuncCtx, v ssa.Value, sr *sigRoles, depth int) (
 			}
 		}
 		return "result of " + shortFn(scf), false
+	case *ssa.Field:
+		return elementSourceOfComponent(p, fc, x, sr, depth)
 	case *ssa.Extract:
 		return elementSource(p, fc, x.Tuple, sr, depth+1)
 	case *ssa.UnOp:
@@ -1264,4 +1277,33 @@ func callersValidatedN(p *Prog, a *Analysis, fn *ssa.Function, prm *ssa.Paramete
 		}
 	}
 	return true
+}
+
+// elementSourceOfComponent: v is the element field of a result struct of a module helper: every value the helper puts
+// there must be an allowed element.
+func elementSourceOfComponent(p *Prog, fc *FuncCtx, v ssa.Value, sr *sigRoles, depth int) (string, bool) {
+	if c, idx, ok := callComponent(v); ok {
+		if scf := c.Call.StaticCallee(); scf != nil && p.InModule(scf) && len(scf.Blocks) > 0 {
+			sub := fc.A.Ctx(scf)
+			n := 0
+			for _, ret := range sub.Returns() {
+				rc := retComponent(ret, idx)
+				if rc == nil {
+					return "result field of " + shortFn(scf) + " (not a literal)", false
+				}
+				rv := Resolve(rc)
+				if isNilConst(rv) {
+					continue
+				}
+				n++
+				if s, ok := elementSource(p, sub, rv, sr, depth+1); !ok {
+					return "result of " + shortFn(scf) + ": " + s, false
+				}
+			}
+			if n > 0 {
+				return "result of " + shortFn(scf) + " (returns only allowed elements)", true
+			}
+		}
+	}
+	return fc.AP(v), false
 }
